@@ -223,8 +223,8 @@ BASE_PATTERNS = ("generic", "generic", "int", "pure_imag", "axis", "sparse")
 
 
 @st.composite
-def reduction_cases(draw, tier):
-    n = draw(st.sampled_from([1, 2, 3, 3, 4, 4, 4, 5, 5, 5, 6, 6, 7]))
+def reduction_cases(draw, tier, size=None):
+    n = draw(st.integers(*size) if size else st.sampled_from([1, 2, 3, 3, 4, 4, 4, 5, 5, 5, 6, 6, 7]))
     kind = draw(st.sampled_from(KINDS))
     if kind == "generic":
         pat = draw(st.sampled_from(BASE_PATTERNS + ("unit", "zero")))
@@ -545,6 +545,8 @@ PROPERTY = Property(
     clauses=[
         Clause("reduction_generated", check_generated, strategy=reduction_cases,
                budget={"quick": 6000, "thorough": 80000}),
+        Clause("reduction_moderate_size", check_generated, strategy=lambda tier: reduction_cases(tier, size=(9, 20 if tier == "quick" else 40)),
+               budget={"quick": 40, "thorough": 400}, shrink=False),
         Clause("reduction_long_dimension", check_generated, strategy=long_reduction_cases, budget={"quick": 16, "thorough": 160},
                shrink=False),
         Clause("zero_pattern_exhaustive", check_pattern, enumerate=enum_zero_patterns,
